@@ -28,6 +28,9 @@ pub enum WritePlan {
     Seq(Vec<usize>),
     /// accept bytes up to absolute position p (capped by `cap` per call), then fail with BrokenPipe
     ErrAt { pos: usize, cap: usize },
+    /// accept bytes up to absolute position p, fail ONCE there with the given kind, accept everything afterwards
+    /// (a transient condition: a timeout, a non-blocking socket that is full, ...)
+    ErrOnceAt { pos: usize, kind: io::ErrorKind },
     /// the k-th write call fails once with ErrorKind::Interrupted, everything else is accepted
     InterruptedAt(usize),
 }
@@ -140,10 +143,10 @@ impl Read for MemLink {
         }
         if sh.to_client.is_empty() {
             if let Some(k) = sh.err_when_empty {
-                sh.trace.push(Ev::CREof);
+                crate::alloc::exempt(|| sh.trace.push(Ev::CREof));
                 return Err(io::Error::new(k, "injected"));
             }
-            sh.trace.push(Ev::CREof);
+            crate::alloc::exempt(|| sh.trace.push(Ev::CREof));
             return Ok(0);
         }
         let mut n = buf.len().min(sh.to_client.len());
@@ -167,7 +170,7 @@ impl Read for MemLink {
             *b = sh.to_client.pop_front().unwrap();
         }
         sh.delivered_to_client += n;
-        sh.trace.push(Ev::CR(n));
+        crate::alloc::exempt(|| sh.trace.push(Ev::CR(n)));
         BYTES_IN.fetch_add(n as u64, Relaxed);
         Ok(n)
     }
@@ -191,20 +194,30 @@ impl Write for MemLink {
             }
             WritePlan::ErrAt { pos, cap } => {
                 if off >= pos {
-                    sh.trace.push(Ev::CWErr);
+                    crate::alloc::exempt(|| sh.trace.push(Ev::CWErr));
                     return Err(io::Error::new(io::ErrorKind::BrokenPipe, "injected write error"));
                 }
                 n = n.min(cap).min(pos - off);
             }
+            WritePlan::ErrOnceAt { pos, kind } => {
+                if sh.write_seq_pos == 0 {
+                    if off >= pos {
+                        sh.write_seq_pos = 1;
+                        crate::alloc::exempt(|| sh.trace.push(Ev::CWErr));
+                        return Err(io::Error::new(kind, "injected transient write error"));
+                    }
+                    n = n.min(pos - off);
+                }
+            }
             WritePlan::InterruptedAt(k) => {
                 if call == k {
-                    sh.trace.push(Ev::CWErr);
+                    crate::alloc::exempt(|| sh.trace.push(Ev::CWErr));
                     return Err(io::Error::new(io::ErrorKind::Interrupted, "injected EINTR"));
                 }
             }
         }
         sh.from_client.extend_from_slice(&buf[..n]);
-        sh.trace.push(Ev::CW(n, off));
+        crate::alloc::exempt(|| sh.trace.push(Ev::CW(n, off)));
         if n > 0 {
             self.peer.borrow_mut().pump(&mut sh, false);
         }
